@@ -145,6 +145,8 @@ def plan_for(prop, tier, seed):
                 [["ab", "abc", "b"], ["abcde", "ab", "abcd"], ["a", "ab", "ba"], ["abcd", "a", "c"]]
             for bi, base in enumerate(bases):
                 for pi, p in enumerate(perms3(base)):
+                    if q and bi > 0 and pi % 2:
+                        continue
                     P.add(Entry("bw_ord%d_%d_fi" % (bi, pi), "bytewise", "first", p), *fams)
                     if withE and (not q or bi == 0):
                         P.add(Entry("bw_ord%d_%d_fi_e" % (bi, pi), "bytewise", "first", p),
@@ -180,10 +182,10 @@ def plan_for(prop, tier, seed):
         std_core(TSTD, "nosuf")
         P.hand += ["i_bw::step_no_suffix", "i_cw::step_no_suffix"]
     elif prop == "C03":
-        lm_core("longest", ("T1", "T2", "T34", "T5"))
+        lm_core("longest", ("T1", "T2", "T34"))
         P.hand += ["i_bw::leftmost_two_calls", "i_cw::leftmost_two_calls"]
     elif prop == "C04":
-        lm_core("first", ("T1", "T2", "T34", "T5"))
+        lm_core("first", ("T1", "T2", "T34"))
         P.hand += ["i_bw::leftmost_two_calls", "i_cw::leftmost_two_calls"]
     elif prop == "C06":
         vt = ["u8", "u64", "i16", "u128", "usize", "i128"] if q else \
